@@ -129,7 +129,11 @@ def tt_mprod(E, s):
     tn = E.tn
     x, xc = tt_input(E, 'x', s['N'], s['R'], s['dtype'], via=s.get('via'))
     modes = s['modes']
-    mats = [E.tensor('F%d' % i, [s['L'][i], s['N'][m]], s['dtype']) for i, m in enumerate(modes)]
+    cur_ = list(s['N'])
+    mats = []
+    for i, m in enumerate(modes):
+        mats.append(E.tensor('F%d' % i, [s['L'][i], cur_[m % len(cur_)]], s['dtype']))
+        cur_[m % len(cur_)] = s['L'][i]          # a repeated mode sees the size left by the previous factor
     if s.get('single'):
         z = x.mprod(mats[0], modes[0])
     else:
@@ -137,6 +141,7 @@ def tt_mprod(E, s):
     ref = dense(E, xc)
     d = len(s['N'])
     for F, m in zip(mats, modes):
+        m = m % d
         ref = tn.tensordot(ref, F, dims=([m], [1]))          # contracted mode goes last
         perm = list(range(m)) + [d - 1] + list(range(m, d - 1))
         ref = tn.permute(ref, perm)
